@@ -597,7 +597,7 @@ func checkD2(c *Ctx, pr *prioRoles) {
 		}
 	} else {
 		// v2: the list stored in the struct is the one prepare sorted; elements are map keys (distinct)
-		prep := p.Func("priority", "prepare")
+		prep := p.prepareFn()
 		ok := false
 		why := "prepare not found"
 		if prep != nil {
@@ -735,7 +735,7 @@ func checkD7D8(c *Ctx) {
 					div := (*ssa.Call)(nil)
 					for _, b2 := range fn.Blocks {
 						for _, in2 := range b2.Instrs {
-							if c2, ok := in2.(*ssa.Call); ok && p.Callee(c2) != nil && p.Callee(c2).Name() == "safeDivide" {
+							if c2, ok := in2.(*ssa.Call); ok && isCheckedDivision(p.Callee(c2)) {
 								div = c2
 							}
 						}
@@ -810,4 +810,54 @@ func checkD5b(c *Ctx, pr *prioRoles) {
 		}
 		c.R.Check(tested, "D5", fmt.Sprintf("%s#verdict.%d", p.FnKey(fn), n), p.InstrPos(call), "non-nil verdict returned to the caller", "the verdict of this checked division is not (only) returned when it is non-nil: a divider fault here is swallowed or a correct division is treated as a fault")
 	}
+}
+
+// isCheckedDivision: a product function (divider, list, dividend, distribution) error - the
+// checked division helper, whatever it is called.
+func isCheckedDivision(fn *ssa.Function) bool {
+	if fn == nil || len(fn.Params) != 4 || !isDividerType(fn.Params[0].Type()) {
+		return false
+	}
+	res := fn.Signature.Results()
+	return res.Len() >= 1 && typeShort(res.At(res.Len()-1).Type()) == "error"
+}
+
+// prepareFn: the v2 priority function that turns the options into (inputs, sorted list,
+// strategic distribution, error) for the constructor: the product callee of the constructor
+// whose results are (map, []uint, map[uint]uint, error). Resolved by shape, not by name.
+func (p *Prog) prepareFn() *ssa.Function {
+	d := p.Disc("priority.Discipline")
+	if d == nil {
+		return nil
+	}
+	var found []*ssa.Function
+	for _, ctor := range d.Ctors {
+		for _, b := range ctor.Blocks {
+			for _, in := range b.Instrs {
+				call, ok := in.(*ssa.Call)
+				if !ok {
+					continue
+				}
+				cal := p.Callee(call)
+				if cal == nil || !p.IsProduct(cal) {
+					continue
+				}
+				res := cal.Signature.Results()
+				if res.Len() != 4 || typeShort(res.At(3).Type()) != "error" {
+					continue
+				}
+				if _, isSlice := res.At(1).Type().Underlying().(*types.Slice); !isSlice {
+					continue
+				}
+				if _, isMap := res.At(2).Type().Underlying().(*types.Map); !isMap {
+					continue
+				}
+				found = append(found, cal)
+			}
+		}
+	}
+	if len(found) == 1 {
+		return found[0]
+	}
+	return nil
 }
